@@ -11,6 +11,7 @@ must give `err`, and nothing may panic."""
 import os, re
 from vlib import common as C
 
+DRIVERS = ['ResponseM']   # model driver files this check runs: scopes translator failures to the tables they (and the proofs) import
 TRUSTED = ['Rust std as modelled: read_until on a Cursor, String::from_utf8 (Rws.Utf8R.valid), str::trim / is_whitespace (White_Space list), '
            'to_uppercase / to_lowercase as far as a comparison with ASCII can observe (Rws.Utf8R.upperCmp/lowerCmp), split_once, replace, iN/usize parse, to_string',
            'model abstraction: total_bytes/bytes_read are Nat instead of i32 (inputs < 2 GiB); content_length value not carried (never read by the code)']
